@@ -19,6 +19,7 @@ type Oblig struct {
 	Safety bool
 	Cover  bool // must NOT be discharged (vacuity probe)
 	N      int  // number of program points aggregated
+	Tags   []string
 }
 
 type Item struct {
@@ -70,60 +71,63 @@ type pathEl struct {
 }
 
 type LoopInfo struct {
-	head    *ssa.BasicBlock
-	body    map[*ssa.BasicBlock]bool
-	latches []*ssa.BasicBlock
-	ord     int
-	spec    *LoopSpec
-	mod     map[string]bool
-	modAll  bool
-	minPos  token.Pos
-	m0      Term // decreases measure at head
-	autoInv []func(phiVal func(*ssa.Phi) Term) Term
+	head      *ssa.BasicBlock
+	body      map[*ssa.BasicBlock]bool
+	latches   []*ssa.BasicBlock
+	ord       int
+	spec      *LoopSpec
+	mod       map[string]bool
+	modAll    bool
+	minPos    token.Pos
+	m0        Term // decreases measure at head
+	autoInv   []func(phiVal func(*ssa.Phi) Term) Term
 	frameRefs map[string][]ssa.Value // comp -> loop-invariant base objects stored through in the loop
 	frameBad  map[string]bool
 }
 
 type FnCtx struct {
-	g        *Gen
-	fn       *ssa.Function
-	name     string
-	spec     *FuncSpec
-	tt       *typeTable
-	decls    []string
-	declared map[string]bool
-	axioms   []string
-	fresh    int
-	vals     map[ssa.Value]Term
-	tuples   map[ssa.Value][]Term
-	locs     map[ssa.Value]*Loc
-	blocks   map[*ssa.BasicBlock]*BlockVC
-	order    []*ssa.BasicBlock
-	edges    map[string]*EdgeVC
-	exit     *BlockVC
-	cur      *BlockVC
-	st       *State
-	entry    *State
-	obls     []*Oblig
-	oblByID  map[string]*Oblig
-	compSort map[string]string
-	loops    map[*ssa.BasicBlock]*LoopInfo
-	warnings []string
-	defers   []*ssa.Defer
-	trusted  map[string]bool
-	uncontr  map[string]bool
-	results  []Term
-	ghostEnv map[string]TV
-	occ      map[string]int
-	boxDecl  map[string]bool
-	pureDecl map[string]bool
-	strLits  map[string]Term
-	lemmaMode bool
-	selCnt    int
-	active    map[*Oblig]bool
-	curDefs   *[]string
-	storeDefs map[Term]storeDef
-	emitErr   func(map[*Oblig]bool) (string, error)
+	g            *Gen
+	fn           *ssa.Function
+	name         string
+	spec         *FuncSpec
+	tt           *typeTable
+	decls        []string
+	declared     map[string]bool
+	axioms       []string
+	fresh        int
+	vals         map[ssa.Value]Term
+	tuples       map[ssa.Value][]Term
+	locs         map[ssa.Value]*Loc
+	blocks       map[*ssa.BasicBlock]*BlockVC
+	order        []*ssa.BasicBlock
+	edges        map[string]*EdgeVC
+	exit         *BlockVC
+	cur          *BlockVC
+	st           *State
+	entry        *State
+	obls         []*Oblig
+	oblByID      map[string]*Oblig
+	compSort     map[string]string
+	loops        map[*ssa.BasicBlock]*LoopInfo
+	warnings     []string
+	defers       []*ssa.Defer
+	trusted      map[string]bool
+	uncontr      map[string]bool
+	inferredPure map[string]bool
+	specWFDone   map[string]bool
+	modDetail    *[]modTarget
+	results      []Term
+	ghostEnv     map[string]TV
+	occ          map[string]int
+	boxDecl      map[string]bool
+	pureDecl     map[string]bool
+	strLits      map[string]Term
+	lemmaMode    bool
+	selCnt       int
+	active       map[*Oblig]bool
+	curDefs      *[]string
+	storeDefs    map[Term]storeDef
+	emitErr      func(map[*Oblig]bool) (string, error)
 }
 
 // storeDef records that a component version is store(base, ref, inner): lets reads/writes
@@ -160,7 +164,7 @@ func (g *Gen) newCtx(fn *ssa.Function) *FnCtx {
 		vals: map[ssa.Value]Term{}, tuples: map[ssa.Value][]Term{}, locs: map[ssa.Value]*Loc{},
 		blocks: map[*ssa.BasicBlock]*BlockVC{}, edges: map[string]*EdgeVC{}, oblByID: map[string]*Oblig{},
 		compSort: map[string]string{}, loops: map[*ssa.BasicBlock]*LoopInfo{}, trusted: map[string]bool{},
-		uncontr: map[string]bool{}, ghostEnv: map[string]TV{}, occ: map[string]int{}, boxDecl: map[string]bool{},
+		uncontr: map[string]bool{}, inferredPure: map[string]bool{}, specWFDone: map[string]bool{}, ghostEnv: map[string]TV{}, occ: map[string]int{}, boxDecl: map[string]bool{},
 		pureDecl: map[string]bool{}, strLits: map[string]Term{}, storeDefs: map[Term]storeDef{}}
 	if fn != nil {
 		c.name = g.fnName(fn)
